@@ -49,7 +49,7 @@ CLAIMS = {
 }
 CLAIMS["C15"] = ("sufficient condition decided instead of interleavings: with no monitor supplied no reachable instruction writes package-level state (every store / map update / "
                  "in-place append / RNG step whose target is a package-level variable or an object allocated by a package initialiser is a query); a sat answer is confirmed "
-                 "natively by concurrent calls under the race detector. Schedules themselves are not explored", "5 C15")
+                 "natively by concurrent calls under the race detector; option grid incl. spline routing (Shortest, MergeRects, Sides, FitSpline). Schedules themselves are not explored", "5 C15")
 CLAIMS["C20"] = ("PARTIAL: decided in exact real arithmetic with z3 5.1.0 nlsat on the real code - (a) the root finder: solve1/solve2 sound and complete, solve3 sound and complete "
                  "in the Cardano branch (discriminant >= 0) AND in the trigonometric branch (discriminant < 0; cos((atan2+2k*pi)/3) introduced by the triple-angle identity and its "
                  "branch interval): every returned value is a root and every real root is returned; (b) curveIntersects / curveContained on control polygons whose polynomial "
